@@ -261,3 +261,7 @@ INVARIANT Exclusive
                          "pack/unpack at boundary values of every width 1..8; events: seeded random inputs judged by CodecIO.Verdict; "
                          "distinct = inputs with non-empty data/key, classified URIs, pack values")
     ctx.exhaustive = True
+    # history freedom of the functions of their input behind this property (Pure.tla)
+    from vt.checks import xpure
+
+    xpure.pure_part(ctx, xpure.entries_for("C20"))
